@@ -151,9 +151,19 @@ def c18_oracle(case, res, variant):
             q = f['q']
             if fixed:
                 offs = list(cfg.get('qindex_offsets', [0] * 6)) + [0] * 6
-                allowed = set(min(max(Q2QI[cfg.get('qp', 50)] + o, Q2QI[1]), Q2QI[63]) for o in offs[:6] + [cfg.get('key_frame_qindex_offset', 0)])
+                clampq = lambda o: min(max(Q2QI[cfg.get('qp', 50)] + o, Q2QI[1]), Q2QI[63])
+                allowed = set(clampq(o) for o in offs[:6] + [cfg.get('key_frame_qindex_offset', 0)])
                 if q not in allowed:
                     V.append(Violation('C18', 'ORACLE', 'fixed_qp', 'packet %d: base_q_idx %d, fixed QP %d with configured offsets allows %s' % (pi, q, cfg.get('qp', 50), sorted(allowed)), case, variant)); return V
+                # which of the configured offsets: inside complete mini-GOPs of the random-access hierarchy the temporal layer of a picture follows from its
+                # display position (order hint): position p (1-based inside the mini-GOP of 2^L pictures) is on layer L - trailing_zeros(p)
+                L = cfg.get('hierarchical_levels'); n = len(res['frames'])
+                if L is not None and cfg.get('pred_structure', 2) == 2 and cfg.get('intra_period_length', -1) == -1 and not cfg.get('enable_overlays') and n <= 120 and f.get('type') == 1:
+                    mg = 1 << L; p = f['oh']   # order hint == display position for streams shorter than the order-hint period
+                    if 1 <= p <= ((n - 1) // mg) * mg:
+                        pos = (p - 1) % mg + 1; tz = (pos & -pos).bit_length() - 1; layer = L - tz
+                        if q != clampq(offs[layer]):
+                            V.append(Violation('C18', 'ORACLE', 'fixed_qp_layer', 'packet %d: display position %d is on temporal layer %d of a %d-level hierarchy: base_q_idx %d, configured offset %d gives %d' % (pi, p, layer, L, q, offs[layer], clampq(offs[layer])), case, variant)); return V
             elif rc != 0:
                 if q < lo or q > hi:
                     V.append(Violation('C18', 'ORACLE', 'rc_bounds', 'packet %d: base_q_idx %d outside [%d,%d] (min_qp %s max_qp %s, rc %d)' % (pi, q, lo, hi, cfg.get('min_qp_allowed'), cfg.get('max_qp_allowed'), rc), case, variant)); return V
